@@ -145,5 +145,5 @@ def run(ctx):
         for law in laws:
             ctx.violation('C13|%s|%s|%s' % (cfg, law, '+'.join(sorted(set(rel.split(','))))),
                           'Gaussian copula on a %s-column table (%s) with %s marginals violates %s %s' % (n, rel, cfg, law, o.get('trace', '')),
-                          {k: v for k, v in o.items()})
+                          dict(o, rerun=['harness.props.C13._observe', list(jobs[i])]))
     ctx.exhaustive = False
